@@ -28,6 +28,9 @@ def make_config(seed, tier="quick"):
     n_tasks = r.choice([2, 2, 3])
     return dict(
         u8=random.Random(seed ^ 0xC14A8).random() < 0.3,  # non-ASCII values in application messages (separate stream)
+        # frames above asyncio's 64 KiB high-water mark from some senders (a frame must stay one piece on the wire
+        # whatever the other tasks do while its sender waits for the transport)
+        huge=random.Random(seed ^ 0xC1464).random() < 0.06,
         seed=seed,
         eut_role=r.choice(["acceptor", "initiator"]),
         hb=r.choice([1, 2, 3, 3, 30]),
@@ -153,7 +156,10 @@ class SendersSim(PeerSim):
                 m = FIXMessage("5", {58: f"task {i} logout {k}"})
             else:
                 m = FIXMessage(mtype, {11: mid, 55: "ES", 54: "1", 38: k + 1, 44: "3.25"})
-                m[58] = (f"t\u00e4sk {i} msg {k} \u20ac\u4e2d" if self.cfg.get("u8") else f"task {i} msg {k}")
+                text = (f"t\u00e4sk {i} msg {k} \u20ac\u4e2d" if self.cfg.get("u8") else f"task {i} msg {k}")
+                if self.cfg.get("huge") and (i + k) % 3 == 0:
+                    text += " " + "x" * (70_000 if k % 2 else 140_000)
+                m[58] = text
             ent = dict(task=i, k=k, mid=mid, type=mtype, status="pending", exc=None)
             ent["ev0"] = self.rec("send_call", i, k)
             self.send_log.append(ent)
@@ -236,6 +242,7 @@ class SendersSim(PeerSim):
         in_replay_new = 0
         last_was_replay = False
         seen_any_replay = False
+        new_app_numbers = set()
         for (ev, d, fr, dropped) in self.wire():
             t = d.get("35")
             try:
@@ -249,6 +256,13 @@ class SendersSim(PeerSim):
                     if not (n < m <= max_new + 1):
                         raise Violation("gapfill-range", "C14/gapfill-covers-unsent-numbers",
                                         f"GapFill 34={n} 36={m} while the highest new number on the wire was {max_new}")
+                    covered = sorted(k for k in new_app_numbers if n <= k < m)
+                    if covered:
+                        # (no replay filter declines anything in this family: an application message that went
+                        # out under its number is retransmitted, never skipped)
+                        raise Violation("gapfill-over-application-message", "C14/gapfill-reuses-number-of-application-message",
+                                        f"GapFill 34={n} 36={m} covers number(s) {covered[:5]} under which new application "
+                                        "messages were written: a number is reused by a frame that is not its retransmission")
                     seen_any_replay = last_was_replay = True
                     self.probe("gapfill_frames")
                 continue
@@ -277,6 +291,8 @@ class SendersSim(PeerSim):
             new_frames[n] = (d, fr, dropped)
             first_body[n] = body
             max_new = n
+            if t not in refframer.SESSION_TYPES:
+                new_app_numbers.add(n)
         if seen_any_replay and in_replay_new:
             self.probe("new_frame_written_between_replay_frames", in_replay_new)
         # journal: every new frame under its number
